@@ -11,7 +11,14 @@ validator lie on one polynomial of degree exactly t-1; vsr_checkZ, sound by C08_
                                 real libp2p hosts), broadcast delivery by an in-process stand-in that controls order and
                                 multiplicity: shuffled, identical re-deliveries, "duplicate of A before the late message of B"
                                 for round-1 casts, p2p shares and round-2 casts
-  pedersen harness/c11ped       dkg/pedersen.RunDKG in-process, n = 3..6, all t = 2..n (incl. t <= n/2 and t = n)"""
+  pedersen harness/c11ped       dkg/pedersen.RunDKG in-process, n = 3..6, all t = 2..n (incl. t <= n/2 and t = n); and repeated ceremonies
+                                on the same hosts with a straggler val_pubkey_share of the abandoned session delivered to one node
+  run      harness/overlay/dkg  (package dkg_test) FULL dkg.Run ceremonies (libp2p nodes, local relay, frost / pedersen, lock and
+                                deposit signing, artefacts on disk) incl. the add-validators (append) flow; the monitor runs on the
+                                ARTEFACTS: locks load+verify and are identical, keystore-i matches lock.Validators[i].PubShares[node],
+                                t-subsets reconstruct / sign under lock.Validators[i].PubKey, deposit data verify.
+                                quick: ONE append scenario (a plain ceremony, checked, then add-validators), shape rotating with the
+                                seed, plus one small plain ceremony of the other algorithm; thorough: frost and pedersen plain ceremonies and two append scenarios"""
 import json
 import os
 import re
@@ -19,7 +26,8 @@ import re
 import vp
 
 OVERLAY = {"zz_verif_c11_test.go": os.path.join(vp.HARNESS, "overlay", "dkg", "zz_verif_c11_test.go"),
-           "zz_verif_c11p2p_test.go": os.path.join(vp.HARNESS, "overlay", "dkg", "zz_verif_c11p2p_test.go")}
+           "zz_verif_c11p2p_test.go": os.path.join(vp.HARNESS, "overlay", "dkg", "zz_verif_c11p2p_test.go"),
+           "zz_verif_c11run_test.go": os.path.join(vp.HARNESS, "overlay", "dkg", "zz_verif_c11run_test.go")}
 
 HEADER = """From Coq Require Import ZArith List Bool.
 From Charon Require Import Tbls.ShamirZ Tbls.ShamirCorr.
@@ -41,6 +49,7 @@ def main():
     R.assumptions = [
         "kryptology's FROST participant and kyber's Pedersen DKG are modelled (each dealer contributes a polynomial of degree < t per validator; a node's share is the sum of what was routed to it), not verified; their zero-knowledge / Feldman / complaint machinery is not part of the model",
         "theorems: transport contract = every node receives exactly the messages addressed to it, each once, in an arbitrary order, all n nodes honest; that frostp2p.go establishes this contract from a network that re-delivers and re-orders is not a theorem — it is exercised by the real-transport ceremony class (reliable broadcast itself is property C13)",
+        "the full ceremony (dkg.Run: sync, lock-hash / deposit / registration signing and aggregation, writing artefacts, add-validators flow) has no Coq model: it is covered by the artefact monitor on sampled scenarios only (one append scenario per quick run, rotating by seed)",
         "Pedersen ceremonies are covered by correspondence against the same C08/C11 theorems about the joint polynomial (degree < t), there is no separate Coq model of dkg/pedersen",
         "pairing-group hypotheses and admissible ids 1..n as in C08; the Coq decision 'on one polynomial of degree exactly t-1' (vsr_checkZ at the BLS12-381 scalar order r) is sound by C08_vsr_checkZ_sound_r (r proved prime in Tbls/PrimeR.v)",
         "the ceremonies draw their randomness internally (crypto/rand): the check is relational on the produced outputs, a replay re-runs the configuration (same delivery plan / order seed) three times",
@@ -58,29 +67,41 @@ def main():
         if not isinstance(replay, dict) or "n" not in replay:
             os.environ.pop("VERIF_REPLAY", None)
             replay = None
-    want = {"mem", "p2p", "pedersen"}
+    want = {"mem", "p2p", "pedersen", "run"}
     if replay is not None:
-        want = {"pedersen"} if replay.get("algo") == "pedersen" else ({"p2p"} if replay.get("p2p") else {"mem"})
+        if replay.get("full_run"):
+            want = {"run"}
+        elif replay.get("algo") == "pedersen":
+            want = {"pedersen"}
+        else:
+            want = {"p2p"} if replay.get("p2p") else {"mem"}
 
+    def do_mem():
+        rc, out, od = vp.go_overlay_test("dkg", OVERLAY, run="TestVerifC11$", outdir=os.path.join(vp.WORK, "ov_dkg_mem"))
+        return "in-memory transport", rc, out, os.path.join(od, "c11_cases.json")
+
+    def do_p2p():
+        rc, out, od = vp.go_overlay_test("dkg", OVERLAY, run="TestVerifC11P2P$", timeout=1200, outdir=os.path.join(vp.WORK, "ov_dkg_p2p"))
+        return "real frostP2P transport", rc, out, os.path.join(od, "c11p2p_cases.json")
+
+    def do_run():
+        rc, out, od = vp.go_overlay_test("dkg", OVERLAY, run="TestVerifC11Run$", timeout=1500, outdir=os.path.join(vp.WORK, "ov_dkg_run"))
+        return "full dkg.Run", rc, out, os.path.join(od, "c11run_cases.json")
+
+    def do_ped():
+        rc, out, od = vp.go_harness("c11ped", timeout=1200)
+        return "pedersen", rc, out, os.path.join(od, "c11ped_cases.json")
+
+    from concurrent.futures import ThreadPoolExecutor
+    todo = [(c, f) for c, f in (("mem", do_mem), ("p2p", do_p2p), ("pedersen", do_ped), ("run", do_run)) if c in want]
+    with ThreadPoolExecutor(max_workers=4) as ex:
+        done = list(ex.map(lambda cf: (cf[0], cf[1]()), todo))
     runs = []  # (class, output dict)
-    if "mem" in want:
-        rc, out, od = vp.go_overlay_test("dkg", OVERLAY, run="TestVerifC11$")
+    for cls, (name, rc, out, pth) in done:
         if rc != 0:
-            R.broke("correspondence:overlay test dkg (in-memory transport) failed to run", out[-3000:])
+            R.broke("correspondence:harness for ceremony class '%s' failed to run" % name, out[-3000:])
         else:
-            runs.append(("mem", json.load(open(os.path.join(od, "c11_cases.json")))))
-    if "p2p" in want:
-        rc, out, od = vp.go_overlay_test("dkg", OVERLAY, run="TestVerifC11P2P$", timeout=1200)
-        if rc != 0:
-            R.broke("correspondence:overlay test dkg (real frostP2P transport) failed to run", out[-3000:])
-        else:
-            runs.append(("p2p", json.load(open(os.path.join(od, "c11p2p_cases.json")))))
-    if "pedersen" in want:
-        rc, out, od = vp.go_harness("c11ped")
-        if rc != 0:
-            R.broke("correspondence:harness c11ped (pedersen) failed to run", out[-3000:])
-        else:
-            runs.append(("pedersen", json.load(open(os.path.join(od, "c11ped_cases.json")))))
+            runs.append((cls, json.load(open(pth))))
 
     found = []
     rows, owner = [], {}
@@ -92,7 +113,7 @@ def main():
             found.append((v["key"], v["what"], v["replay"]))
         for c in cer:
             if not c.get("err"):
-                distinct.add((cls, c["n"], c["t"], c["vals"], json.dumps(c.get("p2p")), json.dumps(c.get("release_orders")), json.dumps(c.get("completion_order")), c.get("id") if cls == "pedersen" else 0))
+                distinct.add((cls, c["n"], c["t"], c["vals"], c.get("algo"), c.get("flow"), json.dumps(c.get("stale_session")), json.dumps(c.get("p2p")), json.dumps(c.get("release_orders")), json.dumps(c.get("completion_order")), c.get("id") if cls == "pedersen" else 0))
             for vi, val in enumerate(c.get("validators") or []):
                 i = len(rows)
                 owner[i] = (cls, c, vi)
@@ -106,7 +127,6 @@ def main():
         text = (HEADER + "Definition cases : list (nat * (nat * list Z)) := [\n%s\n].\n"
                 "Definition dkg_bad := Eval vm_compute in bad dkg_ok cases.\nPrint dkg_bad.\n" % ";\n".join(shard))
         jobs.append(("C11_%d" % si, text))
-    from concurrent.futures import ThreadPoolExecutor
     with ThreadPoolExecutor(max_workers=max(2, min(8, vp.NPROC // 2))) as ex:
         results = list(ex.map(lambda j: vp.coq_eval(j[0], j[1]), jobs))
     for (name, _), (rc, out) in zip(jobs, results):
@@ -129,15 +149,23 @@ def main():
     R.coverage["evaluations"] = ncer
     R.coverage["distinct_nontrivial"] = len(distinct)
     R.coverage["rule"] = ("one evaluation = one in-process ceremony (all n nodes run concurrently): FROST through dkg.runFrostParallel over an in-memory transport, "
-                          "FROST over the real frostP2P transport with controlled order and multiplicity of deliveries, or Pedersen through pedersen.RunDKG; "
+                          "FROST over the real frostP2P transport with controlled order and multiplicity of deliveries, Pedersen through pedersen.RunDKG (also as a second ceremony on the same hosts with a straggler message of the abandoned session), "
+                          "or a full dkg.Run scenario (plain / add-validators) whose artefacts on disk are checked; "
                           "non-trivial = the ceremony completed on all nodes (then all group-side checks and the Coq polynomial check ran on its outputs); "
                           "distinct by (class, n, t, validators, delivery plan / release and completion orders)")
-    R.coverage["input_distribution"] = {"ceremonies": dist, "validators_checked_in_coq": len(rows), "go_checks": checks}
+    ran = []
+    for cls, o in runs:
+        if cls == "run":
+            ran = ["%s %s n=%d t=%d vals=%d%s (%.0fs)" % (c.get("algo"), c.get("flow"), c["n"], c["t"], c["vals"], ("+%d" % c["add"]) if c.get("add") else "", c.get("seconds", 0))
+                   for c in (o.get("ceremonies") or [])]
+    R.coverage["input_distribution"] = {"ceremonies": dist, "validators_checked_in_coq": len(rows), "go_checks": checks,
+                                        "full_dkg_run_scenarios_this_run": ran,
+                                        "full_dkg_run_note": "quick runs ONE append scenario (plain ceremony + add-validators, artefacts of both checked), rotating frost / pedersen / default by seed, plus one small plain ceremony of the other algorithm; thorough runs frost and pedersen plain ceremonies and two append scenarios"}
     samples = []
     for cls, o in runs:
         for c in (o.get("ceremonies") or []):
             if not c.get("err"):
-                samples.append({"class": cls, **{k: c.get(k) for k in ("n", "t", "vals", "p2p", "release_orders", "completion_order") if c.get(k) is not None}})
+                samples.append({"class": cls, **{k: c.get(k) for k in ("algo", "flow", "n", "t", "vals", "add", "stale_session", "p2p", "release_orders", "completion_order") if c.get(k) is not None}})
                 break
-    R.add_samples(samples, 3)
+    R.add_samples(samples, 4)
     R.finish()
